@@ -103,10 +103,25 @@ class Lock:
         self.f.close()
 
 
+def coq_files():
+    out = []
+    for root, _dirs, files in os.walk(THEORIES):
+        for f in files:
+            if f.endswith(".v"):
+                out.append(os.path.relpath(os.path.join(root, f), COQ))
+    return sorted(out)
+
+
 def ensure_makefile():
+    """_CoqProject lists every .v under theories/ and is rewritten when that set changes."""
     mk = os.path.join(COQ, "Makefile")
     proj = os.path.join(COQ, "_CoqProject")
-    if not os.path.exists(mk) or os.path.getmtime(mk) < os.path.getmtime(proj):
+    want = "-Q theories Attrs\n" + "\n".join(coq_files()) + "\n"
+    have = open(proj).read() if os.path.exists(proj) else ""
+    if want != have:
+        with open(proj, "w") as fh:
+            fh.write(want)
+    if want != have or not os.path.exists(mk) or os.path.getmtime(mk) < os.path.getmtime(proj):
         rc, out = _run(["coq_makefile", "-f", "_CoqProject", "-o", "Makefile"], cwd=COQ)
         if rc:
             raise Infra("coq_makefile failed:\n" + out)
@@ -219,8 +234,18 @@ def eval_in_coq(prop, header, expr, tag="explain"):
 
 
 def load_known_findings():
+    """known_findings.json plus the per-property fragments in known_findings.d/."""
     with open(os.path.join(VERIF, "known_findings.json")) as fh:
-        return json.load(fh)
+        kf = json.load(fh)
+    d = os.path.join(VERIF, "known_findings.d")
+    if os.path.isdir(d):
+        for f in sorted(os.listdir(d)):
+            if f.endswith(".json"):
+                with open(os.path.join(d, f)) as fh:
+                    part = json.load(fh)
+                kf.setdefault("findings", []).extend(part.get("findings", []))
+                kf.setdefault("fixed", []).extend(part.get("fixed", []))
+    return kf
 
 
 def match_finding(prop, sig, kf):
